@@ -33,8 +33,8 @@ VARIABLES
   held,        \* connections the caller holds
   nextC,       \* id of the next connection create() returns
   poisoned, broken, invalid,   \* per connection
-  busy,        \* per connection: "none" | "ok" | "panic": a closure whose interact() future was
-               \* dropped is still running and will end this way
+  busy,        \* per connection: "none" | "ok" | "panic" | "break" | "invalid": a closure whose interact()
+               \* future was dropped is still running and will end this way
   rec,         \* connection being recycled by the get() in progress (NoConn = none)
   dead,        \* connections the pool discarded
   budget
@@ -94,9 +94,11 @@ Interact(c, out) ==
   /\ poisoned' = [poisoned EXCEPT ![c] = (out = "panic")]
   /\ UNCHANGED <<idle, size, held, nextC, broken, invalid, busy, rec, dead>>
 
-\* interact() whose future is dropped while the closure runs
+\* interact() whose future is dropped while the closure runs; the closure will end normally, panic,
+\* or leave the connection in a state the backend reports as broken / invalid
 InteractCancel(c, out) ==
-  /\ rec = NoConn /\ c \in held /\ busy[c] = "none" /\ ~poisoned[c] /\ out \in {"ok", "panic"} /\ Spend
+  /\ rec = NoConn /\ c \in held /\ busy[c] = "none" /\ ~poisoned[c] /\ Spend
+  /\ out \in {"ok", "panic"} \cup (IF AllowBreak /\ ~broken[c] THEN {"break"} ELSE {}) \cup (IF AllowInvalid /\ ~invalid[c] THEN {"invalid"} ELSE {})
   /\ busy' = [busy EXCEPT ![c] = out]
   /\ UNCHANGED <<idle, size, held, nextC, poisoned, broken, invalid, rec, dead>>
 
@@ -104,8 +106,10 @@ InteractCancel(c, out) ==
 Finish(c) ==
   /\ busy[c] # "none"
   /\ poisoned' = [poisoned EXCEPT ![c] = (@ \/ busy[c] = "panic")]
+  /\ broken' = [broken EXCEPT ![c] = (@ \/ busy[c] = "break")]
+  /\ invalid' = [invalid EXCEPT ![c] = (@ \/ busy[c] = "invalid")]
   /\ busy' = [busy EXCEPT ![c] = "none"]
-  /\ UNCHANGED <<idle, size, held, nextC, broken, invalid, rec, dead, budget>>
+  /\ UNCHANGED <<idle, size, held, nextC, rec, dead, budget>>
 
 Break(c) ==
   /\ AllowBreak /\ rec = NoConn /\ c \in held /\ ~broken[c] /\ busy[c] = "none" /\ ~poisoned[c] /\ Spend
@@ -124,7 +128,8 @@ Return(c) ==
 
 Next ==
   \/ Get \/ GetResume
-  \/ \E c \in Conns : \E out \in {"ok", "panic"} : Interact(c, out) \/ InteractCancel(c, out)
+  \/ \E c \in Conns : \E out \in {"ok", "panic"} : Interact(c, out)
+  \/ \E c \in Conns : \E out \in {"ok", "panic", "break", "invalid"} : InteractCancel(c, out)
   \/ \E c \in Conns : Finish(c) \/ Break(c) \/ Invalidate(c) \/ Return(c)
 
 Spec == Init /\ [][Next]_vars
